@@ -117,6 +117,13 @@ def no_revisit_evidence(p_mt, u_mt, tol=1e-9):
             continue
         if Xu is not None and not Xu.stop and Xu.logprob >= X.logprob - tol * max(1.0, abs(X.logprob)):
             continue
+        if (Xu is not None and not Xu.stop and {q.key for q in Xu.prev} == {P.key} and {q.key for q in X.prev} == {P.key}
+                and abs((Xu.logprob - Pu.logprob) - (X.logprob - P.logprob)) > 1e-9 * max(1.0, abs(X.logprob))):
+            # third path-dependent ingredient: BOTH lattices hold the step P -> X (X's recorded predecessor is P in both), the unpruned
+            # one starts it from a P that is at least as probable but was reached from another predecessor, and scores the SAME step differently
+            return ("step-score", f"step {P.key} -> {X.key} is held by both lattices with {P.key} as the recorded predecessor; unpruned holds {P.key} at {Pu.logprob!r} "
+                    f"(pruned {P.logprob!r}) reached from {[q.key for q in Pu.prev]} instead of {[q.key for q in P.prev]}, and scores the step "
+                    f"{Xu.logprob - Pu.logprob!r} instead of {X.logprob - P.logprob!r}")
         try:
             forbidden = u_mt._node_in_prev_ne(Pu, X.edge_m.l2 if X.edge_m.l2 is not None else X.edge_m.l1)
         except Exception:
@@ -216,7 +223,8 @@ def check_case(ctx, case):
             why = no_revisit_evidence(sib["pruned"], sib["unpruned"])
             if why:
                 mode = {"no-revisit": "heuristic:nonemitting-no-revisit-rule",
-                        "accumulated-distances": "heuristic:distance-nonemitting-accumulated-distances"}[why[0]]
+                        "accumulated-distances": "heuristic:distance-nonemitting-accumulated-distances",
+                        "step-score": "heuristic:nonemitting-step-score-depends-on-predecessor"}[why[0]]
                 ev = " | " + why[1]
         if pidx > uidx:
             ctx.violation(f"C07:pruned-run-matched-more-than-unpruned:{mode}", case, f"W={cfg['width']}: pruned idx {pidx}, unpruned idx {uidx}{ev}")
